@@ -1,6 +1,6 @@
 (* C13 — closures capture variables, not values.
    Only statements here; proofs live in Proofs/C13_Refine.v. *)
-From Elk Require Import Base.GoSem Model.C10_Stack Proofs.C10_Stack Proofs.C13_Refine.
+From Elk Require Import Base.GoSem Model.C10_Stack Proofs.C10_Stack Proofs.C13_Refine Proofs.C13_Sim.
 Open Scope Z_scope.
 
 (* UNBOUNDED: from the initial state, after ANY sequence of machine operations (push, pop,
@@ -25,19 +25,32 @@ Theorem C13_one_upvalue_per_slot : forall s u v,
 Proof. exact oinv_one_per_slot. Qed.
 Print Assumptions C13_one_upvalue_per_slot.
 
-(* BOUNDED refinement (finite statement, bound stated): for every trace of at most BOUND = 6
-   operations over the 23-operation alphabet (incl. new variable instance in an existing slot
-   and the fixed tail call) that satisfies the discipline D and fits the
-   capacity, the reads of the implementation machine (addresses, open list, closing, growth)
-   equal the reads of the store-semantics spec where every variable instance is a cell.
-   Proved by exhaustive evaluation inside Coq (vm_compute) + a soundness lemma.  The
-   unbounded refinement is NOT proved. *)
-Theorem C13_refines_bounded : forall l,
-  (length l <= BOUND)%nat -> Forall (fun o => In o alphabet) l ->
-  D init_sst l = true -> fits_run (init_st 1000 4) l = true ->
-  out (run (init_st 1000 4) l) = sout (srun init_sst l).
-Proof. exact (sim_check_sound alphabet BOUND _ _ sim_check_bound_a). Qed.
-Print Assumptions C13_refines_bounded.
+(* UNBOUNDED refinement.  From any base address b and capacity c, for EVERY operation sequence
+   of the fixed machine (fixed_op: every operation except the as-found tail call) that satisfies
+   the discipline D (a slot whose variable instance is still referenced by a closure is closed
+   before it is popped or given to a new variable instance; return and the tail call close by
+   themselves) and never pushes beyond the capacity: the reads of the implementation machine
+   (addresses, open list, closing, tail calls reusing the frame, growth to arbitrary new bases)
+   equal the reads of the store-semantics spec in which every variable instance is a cell and a
+   closure holds cells.  Proof: simulation relation R (open upvalue = cell of the live slot it
+   points at; closed upvalue owns its cell; handles equal iff cells equal), preserved by every
+   operation (C13_simulation_step). *)
+Theorem C13_refines : forall b c l, 0 <= c -> forallb fixed_op l = true ->
+  D init_sst l = true -> fits_run (init_st b c) l = true ->
+  out (run (init_st b c) l) = sout (srun init_sst l).
+Proof. exact refines. Qed.
+Print Assumptions C13_refines.
+
+Theorem C13_simulation_step : forall s t o, R s t -> fixed_op o = true -> ok t o = true -> fits s o = true ->
+  R (step s o) (sstep t o).
+Proof. exact sim_step. Qed.
+Print Assumptions C13_simulation_step.
+
+(* the same from any pair of related states (e.g. in the middle of a run) *)
+Theorem C13_refines_from : forall l s t, R s t -> forallb fixed_op l = true -> D t l = true ->
+  fits_run s l = true -> out (run s l) = sout (srun t l).
+Proof. intros l s t HR X HD HF. apply (r_out _ _ (sim_run l s t HR X HD HF)). Qed.
+Print Assumptions C13_refines_from.
 
 (* The discipline D is NECESSARY (1): a slot that still has an open upvalue is given to a new
    variable instance (the next loop iteration; `ONewVar`) without CLOSE_UPVALUES_TO - as the
